@@ -154,22 +154,30 @@ def _cleanup_hook(eng, args, kw, st, fr, k, node):
 def _tmi_exc(S, a, exc):
     g = a.ghost
     out = []
-    if exc.origin == "stmt" and exc.cls != "TypeError":
-        out.append(("before the exception is re-raised every mailbox was killed and cleaned up (the loops ran)",
-                    S.And(g.kill_loop_done, g.cleanup_loop_done)))
+    if exc.cls != "TypeError":
+        out.append(("before an exception leaves the processor every mailbox was cleaned up (threads joined) and - when the pipeline "
+                    "or the consumer failed - killed (the loops ran)",
+                    S.And(g.cleanup_loop_done, S.Implies(g.yf_failed, g.kill_loop_done))))
     return out
+
+
+def _method(S, name, recv):
+    return z3.Function("method:" + name, V, V)(S.v(recv))
 
 
 tmp_iter = REG.add(Contract(
     F, "ThreadedMailboxProcessor.iter",
     params=dict(self="V"),
     ensures=lambda S, a, r: [("on normal completion every mailbox was cleaned up (threads joined) and no saver holds an unreported failure",
-                              a.ghost.cleanup_loop_done)],
+                              a.ghost.cleanup_loop_done),
+                             ("the processor completes normally only if the pipeline did (a failure or a closed consumer is re-raised, "
+                              "never swallowed)", S.Not(a.ghost.yf_failed))],
     raises={"Any": lambda S, a: S.true, "GeneratorExit": lambda S, a: S.true, "MailboxKilled": lambda S, a: S.true,
-            "TypeError": lambda S, a: S.true},
+            "TypeError": lambda S, a: S.true, "OutsideException": lambda S, a: S.true},
     exc_ensures=_tmi_exc,
     ghost={"killed_last": z3.Const("nobody_killed", V), "kill_reason_ok": z3.BoolVal(False), "kill_upstream": z3.BoolVal(False),
-           "cleaned_last": z3.Const("nobody_cleaned", V), "kill_loop_done": z3.BoolVal(False), "cleanup_loop_done": z3.BoolVal(False)},
+           "cleaned_last": z3.Const("nobody_cleaned", V), "kill_loop_done": z3.BoolVal(False), "cleanup_loop_done": z3.BoolVal(False),
+           "yf_failed": z3.BoolVal(False)},
     calls={"m.kill": _kill_hook, "m.cleanup": _cleanup_hook, "m.start": Abstract(sort=None), "self.log.debug": Abstract(sort=None),
            "self.log.fatal": Abstract(sort=None), "print": Abstract(sort=None), "sys.exc_info": Abstract(),
            ".subscribe": Abstract(), ".shutdown": Abstract(sort=None)},
@@ -182,11 +190,25 @@ tmp_iter = REG.add(Contract(
                    on_exit=lambda eng, st: St(st.env, st.heap, st.pc, {**st.ghost, "kill_loop_done": z3.BoolVal(True)})),
            3: Loop(lambda S, a: [], body_ensures=lambda S, a: [("EVERY mailbox is cleaned up (its threads joined)", S.eq(a.ghost.cleaned_last, a.m))],
                    on_exit=lambda eng, st: St(st.env, st.heap, st.pc, {**st.ghost, "cleanup_loop_done": z3.BoolVal(True)})),
-           4: Loop(lambda S, a: []), 5: Loop(lambda S, a: [])},
+           4: Loop(lambda S, a: [], iterates=lambda S, a: [
+               ("the final scan goes over the savers of EVERY data type (components.savers), not only of the targets",
+                S.Or(S.eq(a.it_, _method(S, "items", S.attr(S.attr(a.self, "components"), "savers"))),
+                     S.eq(a.it_, _method(S, "values", S.attr(S.attr(a.self, "components"), "savers")))))]),
+           5: Loop(lambda S, a: [], iterates=lambda S, a: [("every saver of the data type is looked at", S.eq(a.it_, a.saver_list))],
+                   body_ensures=lambda S, a: [
+                       ("a saver that holds an exception does not pass the scan (the exception is raised)",
+                        S.Not(S.truthy(S.attr(a.s, "got_exception"))))])},
     loop_ghost={1: [], 2: ["killed_last", "kill_reason_ok", "kill_upstream"], 3: ["cleaned_last"], 4: [], 5: []},
 ))
-tmp_iter.yield_from_raises = ("Any", "GeneratorExit", "MailboxKilled")
+tmp_iter.yield_from_raises = ("Any", "GeneratorExit", "MailboxKilled", "OutsideException")
 tmp_iter.generator = True
+_I2V = z3.Function("int2v", z3.IntSort(), V)
+tmp_iter.yield_from_facts = lambda eng, cls, t: [
+    ("an exception object is not None", t != z3.Const("None", V)),
+    ("a MailboxKilled raised by the target mailbox carries the kill reason (class, exception, traceback) and its exception is not None "
+     "(kill reasons are built by Mailbox.kill_from_exception - contract KFE - and by this very function)",
+     # (stated on the term e.args[0][1], which the code evaluates only when e is a MailboxKilled)
+     GETITEM(ARGS0(t), _I2V(z3.IntVal(1))) != z3.Const("None", V))]
 
 
 def _kill_spies(eng, args, kw, st, fr, k, node):
@@ -200,13 +222,15 @@ stp_iter = REG.add(Contract(
     "strax/processors/single_thread.py", "SingleThreadProcessor.iter",
     params=dict(self="V"),
     ensures=lambda S, a, r: [("normal completion, or the consumer closed the iterator and the savers were closed with an exception on record",
-                              S.Or(S.Not(a.ghost.spies_killed), a.ghost.killed_while_handling))],
-    raises={"Any": lambda S, a: S.true},
+                              S.Or(S.Not(a.ghost.spies_killed), a.ghost.killed_while_handling)),
+                             ("if the pipeline or the consumer failed, the savers were closed with an exception on record",
+                              S.Implies(a.ghost.yf_failed, S.And(a.ghost.spies_killed, a.ghost.killed_while_handling)))],
+    raises={"Any": lambda S, a: S.true, "OutsideException": lambda S, a: S.true},
     exc_ensures=lambda S, a, exc: [("a failure in a producer closes every saver (while the exception is being handled, so that it is recorded) "
                                     "before it is re-raised to the caller", S.And(a.ghost.spies_killed, a.ghost.killed_while_handling))],
-    ghost={"spies_killed": z3.BoolVal(False), "killed_while_handling": z3.BoolVal(False)},
+    ghost={"spies_killed": z3.BoolVal(False), "killed_while_handling": z3.BoolVal(False), "yf_failed": z3.BoolVal(False)},
     calls={"self.post_office.kill_spies": _kill_spies, "self.post_office.get_iter": Abstract(), "self.log.debug": Abstract(sort=None),
            "self.log.fatal": Abstract(sort=None)},
 ))
-stp_iter.yield_from_raises = ("Any", "GeneratorExit")
+stp_iter.yield_from_raises = ("Any", "GeneratorExit", "OutsideException")
 stp_iter.generator = True
